@@ -344,7 +344,8 @@ def run(ctx):
 
 
 THEOREMS = ["C47_window_totals", "C47_window_alignment", "C47_state_machine", "C47_opens_exactly_when", "C47_open_rejects", "C47_halfopen_exits",
-            "C47_sem_bounded", "C47_sem_counts_probes", "C47_admitted_without_token_only_when_closed", "C47_concurrent_probes_bounded"]
+            "C47_sem_bounded", "C47_sem_counts_probes", "C47_admitted_without_token_only_when_closed", "C47_concurrent_probes_bounded",
+            "C47_deadline_armed_before_open_visible", "C47_state_first_refuted"]
 
 META = {
     "ready": True,
